@@ -1,6 +1,6 @@
 //! fvh — verification harness binary for ferrous.
 //!
-//!   fvh serve --port P --ctl Q --dir D [--requirepass X] [--appendonly] [--autosave S,C]
+//!   fvh serve --port P --ctl Q --dir D [--requirepass X] [--conf FILE] [--appendonly] [--autosave S,C]
 //!       runs the REAL server in-process (hooks compiled in via --cfg ferrous_verif) plus a
 //!       line-based control port used by the python driver.
 //!   fvh codec   (stdin: json lines)  in-process driver for RespParser / serialize_resp_frame
@@ -38,10 +38,23 @@ fn serve(args: &[String]) {
     let port: u16 = arg_val(args, "--port").expect("--port").parse().unwrap();
     let ctl_port: u16 = arg_val(args, "--ctl").expect("--ctl").parse().unwrap();
     let dir = arg_val(args, "--dir").expect("--dir");
-    let mut cfg = ferrous::Config::default();
+    // --conf FILE: the configuration comes from a configuration file, read by ferrous' own parser (the way a deployment
+    // sets requirepass); port, address and directories are then overridden as for the built-in configuration
+    let mut cfg = match arg_val(args, "--conf") {
+        Some(path) => match ferrous::Config::from_file(path.as_str()) {
+            Ok(c) => c,
+            Err(e) => {
+                eprintln!("fvh: configuration file refused: {}", e);
+                std::process::exit(4);
+            }
+        },
+        None => ferrous::Config::default(),
+    };
     cfg.network.port = port;
     cfg.network.bind_addr = "127.0.0.1".to_string();
-    cfg.network.password = arg_val(args, "--requirepass");
+    if let Some(pw) = arg_val(args, "--requirepass") {
+        cfg.network.password = Some(pw);
+    }
     cfg.rdb.dir = dir.clone();
     cfg.aof.dir = dir.clone();
     cfg.rdb.auto_save = false;
